@@ -292,3 +292,27 @@ def run_model_cases(ctx, name, imports, run_expr, input_type, cases, shard=400, 
             return None
         bad += [(s + i, o) for i, o in mm]
     return bad
+
+
+def check_props_file(ctx, name, timeout=600):
+    """Re-check the static property theorems of one property in this run: Props/<name>.v is recompiled
+    (against the static library) and its Print Assumptions output recorded."""
+    src = os.path.join(THEORIES, 'Props', name + '.v')
+    txt = open(src).read()
+    dst = os.path.join(ctx.build, 'Props_' + name + '.v')
+    with open(dst, 'w') as fh:
+        fh.write(txt)
+    ok, out = coqc(ctx.build, dst, timeout=timeout)
+    thms = re.findall(r'^\s*(?:Theorem|Corollary)\s+(\w+)', txt, re.M)
+    pa = parse_assumptions(out)
+    for t in thms:
+        ctx.obligation('PyIR.Props.%s.%s' % (name, t), ok, None if ok else out[-500:])
+    ctx.extra['print_assumptions'] = dict(zip(re.findall(r'^Print Assumptions (\w+)', txt, re.M), pa))
+    ctx.extra['property_theorems'] = thms
+    if not ok:
+        ctx.report('Props/%s.v' % name, 'proof-broken', {}, dict(theorem_file='coq/theories/Props/%s.v' % name,
+                                                                   output=out[-1500:]), found_input=False)
+    for block in pa:
+        if block.startswith('Axioms:'):
+            ctx.assumptions.append(block)
+    return ok
